@@ -4,6 +4,7 @@ package main
 
 import (
 	"crypto/sha256"
+	"encoding/json"
 	"fmt"
 	"io"
 	"os"
@@ -257,8 +258,59 @@ type scenario struct {
 	Threads []string `json:"threads"`
 }
 
+// replayMain re-executes one recorded schedule without the explorer.
+func replayMain(file string) {
+	raw, err := os.ReadFile(file)
+	if err != nil {
+		ev.Fatal("%v", err)
+	}
+	var v struct {
+		Sig    string `json:"signature"`
+		Msg    string `json:"message"`
+		Replay struct {
+			Scenario scenario `json:"scenario"`
+			Schedule []int    `json:"schedule"`
+		} `json:"replay"`
+	}
+	if err := json.Unmarshal(raw, &v); err != nil {
+		ev.Fatal("%v", err)
+	}
+	fmt.Printf("replaying C09 %s\n  recorded: %s\n", v.Sig, v.Msg)
+	dir := ev.Scratch()
+	tmpl := makeTemplate(dir)
+	wpath := filepath.Join(dir, "c09-world.db")
+	copyFile(tmpl, wpath)
+	vsync.ResetNames()
+	cur := openWorld(wpath)
+	sc := v.Replay.Scenario
+	results := make([]*result, len(sc.Threads))
+	var bodies []func()
+	for i, name := range sc.Threads {
+		i, name := i, name
+		results[i] = &result{op: name}
+		bodies = append(bodies, func() { ops[name](cur, results[i]) })
+	}
+	x, err := vsync.Run(bodies, v.Replay.Schedule)
+	if err != nil {
+		ev.Fatal("replay diverged: %v", err)
+	}
+	probe := ev.NewRun("C09", "model_checking", []string{"quick"})
+	checkExec(probe, sc, x, cur, results, 0)
+	cur.close()
+	ev.Cleanup()
+	if probe.NumSigs() > 0 {
+		fmt.Println("replay: violation reproduced")
+		os.Exit(1)
+	}
+	fmt.Println("replay: no oracle failure on this schedule")
+	os.Exit(0)
+}
+
 func main() {
 	args := os.Args[1:]
+	if len(args) >= 2 && args[0] == "replay" {
+		replayMain(args[1])
+	}
 	run := ev.NewRun("C09", "model_checking", args)
 	if !ev.IsWorker() {
 		cov := run.RunSharded(16, args)
@@ -369,18 +421,18 @@ func main() {
 		}
 	}
 	run.Finish(ev.Coverage{
-		"states@set":                    ocl,
-		"transitions":                   totalPoints,
-		"traces_validated_against_impl": totalExecs,
-		"executions":                    totalExecs,
-		"evaluations":                   totalExecs,
-		"distinct_nontrivial":           nontrivial,
+		"states@set":                     ocl,
+		"transitions":                    totalPoints,
+		"traces_validated_against_impl":  totalExecs,
+		"executions":                     totalExecs,
+		"evaluations":                    totalExecs,
+		"distinct_nontrivial":            nontrivial,
 		"preemption_bound_completed@max": bound,
-		"scenarios":                     len(perScenario),
-		"executions_per_scenario":       perScenario,
-		"max_scheduling_points@max":     maxPoints,
-		"exhaustive":                    complete,
-		"samples":                       samples,
+		"scenarios":                      len(perScenario),
+		"executions_per_scenario":        perScenario,
+		"max_scheduling_points@max":      maxPoints,
+		"exhaustive":                     complete,
+		"samples":                        samples,
 	})
 }
 
